@@ -1,1 +1,159 @@
-fn main() {}
+//! Engine `proc`: real processes over a real segment file, production build (guard off): the
+//! un-substituted `ptr::write` / `read_volatile` data path races for real.
+//!
+//!   shmproc writer <path>            start up (ShmWriter::new), continue the publication sequence
+//!                                    found in the file, publish as fast as possible until killed
+//!   shmproc reader <path> <id>       attach (retrying), call snapshot() in a tight loop, check
+//!                                    every result; "Q" on stdin -> one more call, answer "A <index>";
+//!                                    "E" on stdin -> print a JSON summary and exit
+
+use std::ffi::CString;
+use std::io::{BufRead, Write};
+use std::path::Path;
+use std::sync::atomic::{AtomicBool, AtomicU64, Ordering};
+use std::sync::Arc;
+
+use clock_bound_shm::{ShmReader, ShmWrite, ShmWriter};
+use shmsim::record::{blend_origin, decode, decode_words, encode, Decoded};
+
+fn file_words(path: &str) -> Option<(u16, [u64; 7])> {
+    let b = std::fs::read(path).ok()?;
+    if b.len() < 72 {
+        return None;
+    }
+    let gen = u16::from_ne_bytes([b[14], b[15]]);
+    let mut w = [0u64; 7];
+    for (k, x) in w.iter_mut().enumerate() {
+        *x = u64::from_ne_bytes(b[16 + 8 * k..24 + 8 * k].try_into().unwrap());
+    }
+    Some((gen, w))
+}
+
+fn writer(path: &str) {
+    // Continue after whatever the previous incarnation left (possibly a half-written record).
+    let mut next = 1u64;
+    if let Some((_, w)) = file_words(path) {
+        for (k, x) in w.iter().enumerate().take(5) {
+            if *x % 8 == k as u64 + 1 {
+                next = next.max(x / 8 + 2);
+            }
+        }
+    }
+    let mut wr = ShmWriter::new(Path::new(path)).expect("ShmWriter::new");
+    let mut i = next;
+    loop {
+        wr.write(&encode(i));
+        i += 1;
+        if i % 64 == 0 {
+            // Leave the segment quiescent for a moment now and then.
+            for _ in 0..(i % 1000) {
+                std::hint::spin_loop();
+            }
+        }
+    }
+}
+
+fn reader(path: &str, id: &str) {
+    let cpath = CString::new(path).unwrap();
+    let mut r = loop {
+        match ShmReader::new(&cpath) {
+            Ok(r) => break r,
+            Err(_) => std::thread::sleep(std::time::Duration::from_millis(1)),
+        }
+    };
+    let query = Arc::new(AtomicU64::new(0));
+    let end = Arc::new(AtomicBool::new(false));
+    {
+        let (q, e) = (query.clone(), end.clone());
+        std::thread::spawn(move || {
+            let stdin = std::io::stdin();
+            for line in stdin.lock().lines() {
+                match line.as_deref() {
+                    Ok("Q") => {
+                        q.fetch_add(1, Ordering::SeqCst);
+                    }
+                    Ok("E") | Err(_) => {
+                        e.store(true, Ordering::SeqCst);
+                        return;
+                    }
+                    _ => {}
+                }
+            }
+            e.store(true, Ordering::SeqCst);
+        });
+    }
+    let mut answered = 0u64;
+    let (mut calls, mut changes, mut errors) = (0u64, 0u64, 0u64);
+    let mut last = 0u64;
+    let mut violations: Vec<String> = Vec::new();
+    let out = std::io::stdout();
+    loop {
+        let res = r.snapshot().map(decode);
+        calls += 1;
+        let idx = match res {
+            Ok(Decoded::Initial) => 0,
+            Ok(Decoded::Publication(i)) => i,
+            Ok(Decoded::Blend(w)) => {
+                if violations.len() < 5 {
+                    violations.push(format!("C02 torn-snapshot: reader {} returned words of publications {:?} (call {})", id, blend_origin(&w), calls));
+                }
+                last
+            }
+            Err(e) => {
+                // Legitimate: the retry cap was reached because the writer died mid-update while
+                // this call was copying (C18 allows the cached record or an error).
+                let _ = e;
+                errors += 1;
+                last
+            }
+        };
+        if idx < last && violations.len() < 5 {
+            violations.push(format!("C03 went-backwards: reader {} returned {} after {} (call {})", id, idx, last, calls));
+        }
+        if idx != last {
+            changes += 1;
+        }
+        last = idx;
+        if calls % 256 == 0 || query.load(Ordering::SeqCst) > answered {
+            if end.load(Ordering::SeqCst) {
+                break;
+            }
+            let q = query.load(Ordering::SeqCst);
+            if q > answered {
+                answered = q;
+                // One dedicated call for the supervisor's quiescent comparison.
+                let a = match r.snapshot().map(decode) {
+                    Ok(Decoded::Initial) => "0".to_string(),
+                    Ok(Decoded::Publication(i)) => {
+                        last = last.max(i);
+                        format!("{}", i)
+                    }
+                    Ok(Decoded::Blend(w)) => format!("blend:{:?}", blend_origin(&w)),
+                    Err(e) => format!("err:{:?}", e),
+                };
+                let mut o = out.lock();
+                writeln!(o, "A {}", a).unwrap();
+                o.flush().unwrap();
+            }
+        }
+    }
+    let mut o = out.lock();
+    writeln!(o, "S {{\"reader\":\"{}\",\"calls\":{},\"changes\":{},\"errors\":{},\"last\":{},\"violations\":{:?}}}", id, calls, changes, errors, last, violations).unwrap();
+    o.flush().unwrap();
+}
+
+fn main() {
+    let args: Vec<String> = std::env::args().collect();
+    match args.get(1).map(|s| s.as_str()) {
+        Some("writer") => writer(&args[2]),
+        Some("reader") => reader(&args[2], args.get(3).map(|s| s.as_str()).unwrap_or("0")),
+        Some("decode") => {
+            // helper for the supervisor: decode the file's record
+            match file_words(&args[2]) {
+                Some((g, w)) => println!("{} {:?}", g, decode_words(&w)),
+                None => println!("none"),
+            }
+        }
+        _ => eprintln!("usage: shmproc writer <path> | reader <path> <id> | decode <path>"),
+    }
+}
